@@ -49,8 +49,21 @@ def run_scn(scn, on_step):
 def check_scn(scn):
     """None if the manager agrees with the reference at every step, else a description"""
     exact = not scn.get("ha")
+    st = {"prev": None, "void": False}
 
     def on_step(j, m, consumed):
+        if scn.get("ha") and scn.get("life") is not None and scn.get("tf") and st["prev"] is not None and consumed > st["prev"]:
+            # precondition (as in C15): the predecessor a conversion needs must still be retained when it happens.  A bucket
+            # that is re-opened (merged, hence converted again) while it is the ONLY retained candle has lost its predecessor to
+            # an earlier trim; its Heikin-Ashi open legitimately restarts there and the scenario says nothing from then on.
+            before, _ = reference(scn["stream"][: st["prev"]], scn)
+            tfs = gen.tf_seconds(scn["tf"])
+            first_new = scn["stream"][st["prev"]][0]
+            if len(before) == 1 and first_new is not None and -(-first_new // tfs) * tfs == before[-1][0]:
+                st["void"] = True
+        st["prev"] = consumed
+        if st["void"]:
+            return None
         ref, raw = reference(scn["stream"][:consumed], scn)
         got = [cm.candle_tuple(c) for c in m.candles]
         if not cm.tuples_equal(got, ref, exact=exact):
